@@ -532,12 +532,21 @@ func (c *CheckRun) crossCheck() {
 		insts := c.Spec.Instances(c.Cfg.Tier)
 		for _, i := range insts {
 			i.MaxWitnesses = 0
-			i.MaxWallS = 600
 			if c.Spec.Panics {
 				i.CheckPanics = true
 			}
 		}
+		// the second opinion gets a bounded share of the run: 120 s per instance, 20 min per solver
+		savedDeadline, savedBudget := checkDeadline, instWallBudget
+		if d := time.Now().Add(20 * time.Minute); d.Before(checkDeadline) {
+			checkDeadline = d
+		}
+		instWallBudget = 120
+		for _, i := range insts {
+			i.MaxWallS = 120
+		}
 		runInstances(c.P, insts, cfg2, c.Stats)
+		checkDeadline, instWallBudget = savedDeadline, savedBudget
 		dis, undecided, agree := 0, 0, 0
 		for _, i := range insts {
 			b := base[i.Key()]
